@@ -277,6 +277,10 @@ add("VoIEER_nb_pf", P.ValueOfInformationEER,
     lambda s, ml=NAN: P.ValueOfInformationEER(missing_label=ml, random_state=s),
     lambda c: dict(clf=_ctx_clf(c, "nb"), ignore_partial_fit=False), arbitrary_index_ok=True, feat=False,
     model_arg="clf", nmax=14, slow=3, domain=_nb_domain)
+add("VoIEER_labeled_only", P.ValueOfInformationEER,
+    lambda s, ml=NAN: P.ValueOfInformationEER(consider_unlabeled=False, consider_labeled=True, subtract_current=True, normalize=True,
+                                              missing_label=ml, random_state=s),
+    lambda c: dict(clf=_ctx_clf(c)), arbitrary_index_ok=True, feat=False, model_arg="clf", nmax=16, slow=2)
 add("EpistemicUS", P.EpistemicUncertaintySampling,
     lambda s, ml=NAN: P.EpistemicUncertaintySampling(missing_label=ml, random_state=s),
     lambda c: dict(clf=clf_pwc(c["classes"][:2], c.get("ml", NAN))), arbitrary_index_ok=True,
